@@ -70,7 +70,9 @@ IndexRun(req) ==
   /\ hist' = Append(hist, [op |-> "index", delta |-> req.delta, brs |-> req.brs, opt |-> req.opt,
                            thr |-> req.thr])
   /\ UNCHANGED <<heads, vers, nc>>
-  /\ (Emit => PrintT(<<"SCRIPT", ToJson([branches |-> SetSeq(Branches), ig |-> Ig, ops |-> hist', dev |-> dev'])>>))
+  \* where requests vary (fallback family) only histories ending in a delta request are printed
+  /\ ((Emit /\ (req.delta \/ Cardinality(Reqs) = 2)) =>
+        PrintT(<<"SCRIPT", ToJson([branches |-> SetSeq(Branches), ig |-> Ig, ops |-> hist', dev |-> dev'])>>))
 
 Next == \/ \E b \in Branches : \E t \in Trees : Commit(b, t)
         \/ \E req \in Reqs : IndexRun(req)
